@@ -23,7 +23,7 @@ BUDGET = {"quick": {"cases": 45 * 24, "shards": 16}, "thorough": {"cases": 45 * 
 MIN = {"quick": {"evaluations": 300, "nontrivial": 100}, "thorough": {"evaluations": 10000, "nontrivial": 3000}}
 ASSUMPTIONS = ["exactly summable training data (dyadic rewards, small-integer contexts) where bit-for-bit is demanded",
                "KNearest k <= rows of the complete history; Clusters prefix has >= n_clusters distinct rows",
-               "linear policies: expectations within 1e-8 (1+|v|); predicted arms compared except on near-ties"]
+               "linear policies: expectations within 1e-8 (1+|v|), 1e-5 (1+|v|) with 16 or more features (condition numbers of 1e6-1e7); predicted arms compared except on near-ties"]
 
 COMBOS = [c for c in gen.ALL_COMBOS if c[1] != "tree"]
 
@@ -111,6 +111,10 @@ def run_case(rs, ctx):
         ctx.count("generator_signature_differs_after_training")
     ctxual = gen.is_ctx(cfg)
     tol = twin.fit_tol(cfg)
+    if gen.is_linear(cfg) and nf >= 16:
+        # more features than rows and a small penalty: the normal matrix has a condition number around 1e6-1e7, the inverse
+        # (and the Cholesky factor LinTS draws through) differs between batch and chunked accumulation by that much rounding
+        tol = 1e-5
     for rnd in range(2):
         m1, m2 = int(gen.pick(rs, [1, 2, 3, 5])), int(gen.pick(rs, [1, 2, 4]))
         if ctxual:
